@@ -241,7 +241,7 @@ def gen_world(wseed):
         if t == 1 and rng.random() < 0.6:
             tree = W.variant_tree(rng, trees["t0"], "t1")
         else:
-            tree = W.gen_tree(rng, f"t{t}", exotic, pkg_bias=0.5 if hier_focus else 0.0)
+            tree = W.gen_tree(rng, f"t{t}", exotic, pkg_bias=0.5 if hier_focus else 0.0, p_links=0.15)
         trees[tree.name] = tree
         ncfg = rng.randint(2, 4) if t == 0 else rng.randint(1, 2)
         for j in range(ncfg):
@@ -303,6 +303,7 @@ def _listing_order(rng, tree, shuffled):
     order = {}
     if not shuffled:
         return None
+    linked = {k: v for k, v in tree.links.items() if v in tree.dirs}
     for d in sorted(tree.dirs):
         kids = tree.children(d)
         mode = rng.random()
@@ -311,6 +312,14 @@ def _listing_order(rng, tree, shuffled):
         elif mode < 0.8:
             kids.reverse()
         order[f"{tree.name}/{d}"] = kids  # explicit for every directory (sorted otherwise)
+    # directories reached through a link are listed under the link's name; the second visit of
+    # the same real directory may be served in another order
+    for link, target in sorted(linked.items()):
+        for d in sorted(tree.dirs):
+            if (d == target or d.startswith(target + "/")) and rng.random() < 0.5:
+                kids = tree.children(d)
+                rng.shuffle(kids)
+                order[f"{tree.name}/{link}{d[len(target):]}"] = kids
     return order
 
 
